@@ -7,7 +7,7 @@ from . import c12
 PROP = "C13"
 CORR = "Corr.C13"
 REQUIRES = ["Model.Tfr", "Model.Concur", "Spec.C12", "Spec.C13"]
-PROOF_FILES = ["Proof/C13.v"]
+PROOF_FILES = ["Proof/C13.v", "Proof/C13Classic.v", "Proof/C13Thms.v"]
 MANIFEST = {
     "text": "PARTIAL (scheduler granularity). Coq theorems over every number of sub-suites, every script, every fault "
             "plan and EVERY schedule about hand-written small-step interleaving models of ConcurrentTestSuite.run and "
@@ -116,6 +116,25 @@ def invisible(item):
             and item.get("file_name") is not None)
 
 
+def make_describe(sched):
+    """Completion tokens of the classic suite are identified by the worker that put them (whatever object the
+    suite uses as token), stream events by their route code."""
+    owner = {}
+
+    def describe(item):
+        if isinstance(item, dict):
+            return describe_item(item)
+        try:
+            key = ("h", hash(item), type(item).__name__)
+        except TypeError:
+            key = ("i", id(item))
+        tid = sched.current_tid()
+        if tid != 0:
+            owner[key] = tid - 1
+        return ["token", owner.get(key, 998)]
+    return describe
+
+
 def describe_item(item):
     if isinstance(item, dict):
         ev = item.get("event")
@@ -171,7 +190,7 @@ def drive(case):
 
     def make_queue(maxsize=0):
         qq = SchedQueue(sched, log=trace, get_faults=[] if case["get_intr"] is None else [case["get_intr"]],
-                        exc=BoomBase, describe=describe_item, invisible=invisible)
+                        exc=BoomBase, describe=make_describe(sched), invisible=invisible)
         queues.append(qq)
         return qq
     n = len(case["suites"])
